@@ -276,7 +276,7 @@ def c08(tier, seed):
 
 
 # --------------------------------------------------------------------------------------------- C10, C11, C12, C16 (history monitor)
-HIST_SRCS = COMMON + ["mon_hist.cpp"]
+HIST_SRCS = COMMON + ["model.cpp", "mon_hist.cpp"]
 
 
 def hist_exe(flavour):
@@ -382,12 +382,110 @@ def c16(tier, seed):
     return finish(agg, "exploration", cov, HIST_ASSUME, floors)
 
 
+# --------------------------------------------------------------------------------------------- C14, C15
+CAT_SRCS = [x for x in PDE_SRCS if x != "mon_pde.cpp"] + ["model.cpp", "mon_cat.cpp"]
+
+
+def cat_exe(flavour):
+    return build.build_bin(flavour, "mon_cat", CAT_SRCS)
+
+
+@prop("C14")
+def c14(tier, seed):
+    agg = Agg("C14", tier, seed)
+    shards = []
+    for fl in ("plain", "exc"):
+        for p in ("d", "l"):
+            shards.append(Shard(cat_exe(fl), ["--mode", "c14", "--prec", p, "--seed", str(seed)], "%s/c14/%s" % (fl, p), env=NOLEAK))
+    agg.add_shards(run_shards(shards))
+    unknown = sorted(agg.distinct.get("entries_unknown_to_spec", []))
+    missing = sorted(agg.distinct.get("spec_entries_missing_from_build", []))
+    cov = {"evaluations": agg.count("evaluator_calls") + agg.count("steps"), "distinct_nontrivial": agg.ndistinct("entries_checked"),
+           "rule": "every name printed by masa_printid<double> and <long double> of the build under test: unique, own normal form, initialisable, masa_get_name echoes it; for the "
+                   "non-fixture entries sanity_check == 0, init_param == 0, dimension == number of spatial coordinates in spec/catalogue.txt, and every evaluator the spec lists as "
+                   "documented returns a finite non-sentinel value and prints no error at 16 interior points with default parameters. Distinct = (entry, precision) pairs.",
+           "exhaustive": True, "catalogue_size": agg.ndistinct("catalogue_names"), "entries_unknown_to_spec": unknown, "spec_entries_missing_from_build": missing}
+    floors = [("catalogue has at least 37 entries", agg.ndistinct("catalogue_names") >= 37), ("every entry checked in both precisions", agg.ndistinct("entries_checked") >= 2 * agg.ndistinct("catalogue_names")),
+              ("no catalogue entry unknown to the spec (would be uncovered)", not unknown), ("no spec entry missing from the build", not missing)]
+    return finish(agg, "exploration", cov, ["spec/catalogue.txt (derived once from the class declarations and doxygen pages at the pinned commit) says which evaluators are documented and the dimension",
+                                            "interior points: the oracle's admissible point generator where one exists, (0.1,0.9)^n otherwise"], floors)
+
+
+@prop("C15")
+def c15(tier, seed):
+    agg = Agg("C15", tier, seed)
+    shards = []
+    parts = 4
+    for fl in (("plain", "exc") if tier == "thorough" else ("plain",)):
+        for p in ("d", "l"):
+            for i in range(parts):
+                shards.append(Shard(cat_exe(fl), ["--mode", "c15", "--prec", p, "--seed", str(seed), "--shard", str(i), "--parts", str(parts)], "%s/c15/%s/%d" % (fl, p, i), env=NOLEAK))
+    agg.add_shards(run_shards(shards))
+    cov = {"evaluations": agg.count("evaluator_calls"), "distinct_nontrivial": agg.ndistinct("unprovided_pairs"),
+           "rule": "every (solution, overload, precision) triple of the 117-entry API table (harness/spec/api_table.def) that spec/catalogue.txt does not list as provided or unspecified, "
+                   "each called at 4 random argument tuples: result bit-equal to Scalar(-1.33), a line containing 'MASA ERROR' printed, full parameter snapshot and registry "
+                   "unchanged, process alive (the exit() build: an exit() kills the shard and is reported with its context).",
+           "exhaustive": True, "pairs": agg.ndistinct("unprovided_pairs")}
+    floors = [("at least 7500 unprovided (solution, overload, precision) triples enumerated", agg.ndistinct("unprovided_pairs") >= 7500)]
+    return finish(agg, "exploration", cov, ["capability sets in spec/catalogue.txt; unspecified: sod_1d source_t(x) (coverage-only stub)"], floors)
+
+
+# --------------------------------------------------------------------------------------------- C17
+CABI_SRCS = COMMON + ["model.cpp", "mon_cabi.cpp"]
+C_CORE = ["masa_test_default", "masa_init", "masa_select_mms", "masa_list_mms", "masa_purge_default_param", "masa_init_param", "masa_sanity_check", "masa_display_param",
+          "masa_display_array", "masa_get_name", "masa_get_dimension", "masa_set_param", "masa_get_param", "masa_set_array", "masa_get_array"]
+
+
+def c_symbols(libdir):
+    import re
+    import subprocess
+    out = subprocess.run(["nm", "-g", "--defined-only", os.path.join(libdir, "cmasa.o")], capture_output=True, text=True).stdout
+    return sorted(l.split()[2] for l in out.splitlines() if len(l.split()) == 3 and l.split()[1] == "T" and re.match(r"^masa_\w+$", l.split()[2]))
+
+
+def cw_table():
+    import re
+    return re.findall(r"^CW_[SIF]\((\w+),", open(os.path.join(VERIF, "harness", "spec", "cw_table.def")).read(), re.M)
+
+
+@prop("C17")
+def c17(tier, seed):
+    agg = Agg("C17", tier, seed)
+    steps, n = (3000, 6) if tier == "quick" else (60000, 16)
+    shards = []
+    for fl in ("plain", "exc"):
+        exe = build.build_bin(fl, "mon_cabi", CABI_SRCS, whole_archive=True)
+        for i in range(n // 2):
+            shards.append(Shard(exe, ["--seed", str(seed), "--shard", str(i + (50 if fl == "exc" else 0)), "--steps", str(steps)], "%s/cabi/%d" % (fl, i), env=NOLEAK, timeout=3600))
+    agg.add_shards(run_shards(shards))
+    defined = c_symbols(build.build_lib("plain"))
+    known = set(cw_table()) | set(C_CORE)
+    unknown = sorted(set(defined) - known)
+    cov = {"evaluations": agg.count("c_vs_cxx_evaluator_comparisons") + agg.count("store_cross_visibility_checks") + agg.count("status_comparisons") + agg.count("array_transfers") + agg.count("get_name_checks"),
+           "distinct_nontrivial": agg.ndistinct("wrappers_called") + agg.count("nonzero_status_states"),
+           "rule": "random histories on the double registry in which C and C++ calls are interleaved on the same handles (init/select/set/arrays/purge/init_param through either side); "
+                   "every evaluator wrapper of harness/spec/cw_table.def called at pool points and compared bit for bit with the C++ <double> overload its NAME stands for; set/get and "
+                   "array transfers (length 0..32, exact-size heap buffers) cross-checked in both directions; masa_get_name into a sentinel-filled buffer; status of masa_sanity_check, "
+                   "masa_get_array, masa_init_param compared with the C++ status in states where it is non-zero (after purge, unknown array, masa_test_function fixture). "
+                   "Non-trivial = distinct wrappers exercised + states with non-zero C++ status.",
+           "wrappers_in_table": len(cw_table()), "wrappers_called": agg.ndistinct("wrappers_called"), "c_symbols_defined_by_cmasa": len(defined), "c_symbols_unknown_to_table": unknown,
+           "nonzero_status_states": agg.count("nonzero_status_states")}
+    floors = [("every wrapper of the table called", agg.ndistinct("wrappers_called") == len(cw_table())), ("no extern C symbol unknown to the table", not unknown),
+              ("at least 5000 C-vs-C++ evaluator comparisons", agg.count("c_vs_cxx_evaluator_comparisons") >= 5000),
+              ("non-zero status states reached at least 20 times", agg.count("nonzero_status_states") >= 20)]
+    return finish(agg, "exploration", cov, HIST_ASSUME + ["the wrapper table maps each C name to the C++ overload of the same name and arity (not to what the wrapper currently forwards to)"], floors)
+
+
 def prebuild():
     """build every harness binary the quick checks use (called by setup)"""
     build.build_bin("exc", "mon_names", COMMON + ["mon_names.cpp"])
     build.build_bin("plain", "mon_names", COMMON + ["mon_names.cpp"])
     pde_exe("plain")
     hist_exe("exc")
+    build.build_bin("plain", "mon_cabi", CABI_SRCS, whole_archive=True)
+    build.build_bin("exc", "mon_cabi", CABI_SRCS, whole_archive=True)
+    cat_exe("plain")
+    cat_exe("exc")
     hist_exe("plain")
     build.build_bin("plain", "mon_closed", COMMON + ["mon_closed.cpp"], opt="-O2")
     build.build_bin("plain", "mon_reduce", RED_SRCS, opt="-O2")
